@@ -2686,6 +2686,9 @@ func (s *Server) serveConnCounted(c net.Conn, countConcurrency bool) error {
 		// ctx belongs to the timed out handler.
 		_, streamedBody := ctx.Request.bodyStream.(*requestStream)
 		isHTTP11 := ctx.Request.Header.IsHTTP11()
+		// The method decides whether the response has a body on the wire. It
+		// is the method that was received: the handler may rewrite it.
+		isHead := ctx.IsHead()
 		ctx.Request.bodyStreamUnread = false
 
 		// If a client denies a request the handler should not be called
@@ -2707,7 +2710,7 @@ func (s *Server) serveConnCounted(c net.Conn, countConcurrency bool) error {
 			}
 		}
 
-		if ctx.IsHead() {
+		if isHead {
 			ctx.Response.SkipBody = true
 		}
 
